@@ -169,9 +169,18 @@ func H_C01_writerNotLast() {
 func H_C01_kinds() {
 	n := 2
 	x := ndName("x", n)
-	kind := ndChoice("kind", 4)
+	kind := ndChoice("kind", 8)
+	c01Text = x
 	vars := make(VarMap)
 	switch kind {
+	case 4:
+		vars.Set("x", c01IntStringer(3))
+	case 5:
+		vars.Set("x", c01FloatErr(1.5))
+	case 6:
+		vars.Set("x", c01BoolStringer(true))
+	case 7:
+		vars.Set("x", c01UintStringer(7))
 	case 0:
 		vars.Set("x", []byte(x))
 	case 1:
@@ -249,3 +258,22 @@ func H_C01_defaultSet() {
 		vfAssert(out == "&amp;", "ampersand escaped")
 	}
 }
+
+// named types of numeric / bool kind whose printed form is produced by String()/Error()
+var c01Text string
+
+type c01IntStringer int
+
+func (c01IntStringer) String() string { return c01Text }
+
+type c01FloatErr float64
+
+func (c01FloatErr) Error() string { return c01Text }
+
+type c01BoolStringer bool
+
+func (c01BoolStringer) String() string { return c01Text }
+
+type c01UintStringer uint8
+
+func (c01UintStringer) String() string { return c01Text }
